@@ -6,7 +6,7 @@
    ProofsMain.v (tables_answers_correct, border_partition_stmt: the statements spelled out). *)
 From Coq Require Import ZArith List Bool Sorting.Permutation.
 Require Import MV.C01.Defs MV.C01.Gen MV.C01.Model MV.C01.Spec MV.C01.Pure MV.C01.ProofsTables MV.C01.ProofsQuery
-        MV.C01.ProofsMain.
+        MV.C01.ProofsMore MV.C01.ProofsVerts MV.C01.ProofsMain.
 Open Scope Z_scope.
 
 (* 1. Query-order independence, all oriented manifold polygon surfaces, sorting on or off: whatever script of public
@@ -46,16 +46,16 @@ Print Assumptions C01_tables_correct.
 
 (* 4. Sorting on: vertex_to_corners lists the corners at the vertex once each in rotational order - a closed ring for an
       interior vertex, an open fan starting at the corner whose incoming edge is a border edge for a border vertex
-      (ring_spec).  PARTIAL for vertex_to_vertices: proved to be a rearrangement of the neighbours; that its order is the
-      matching one (border neighbour first, then the half-edge targets of the corner ring) is checked by the
-      correspondence batches only. *)
-Theorem C01_vertex_ring_sorted_partial :
-  forall nv faces m, wf_mesh nv faces -> mesh_of nv faces m ->
+      (ring_spec) - and vertex_to_vertices is the matching vertex order: for a border vertex first the neighbour across
+      that incoming border edge (the one without a half-edge from A), then the target of every corner of the ring
+      (sp_vertex_ring).  (vertex_to_faces / vertex_to_edges follow these two rings element by element: theorem 8.) *)
+Theorem C01_vertex_ring_sorted :
+  forall nv faces m, wf_mesh nv faces -> mesh_of nv faces m -> edges_exact faces (m_edges m) ->
   forall A, 0 <= A < nv ->
-    (exists l, p_vertex_to_corners m true A = Ok (Some l) /\ ring_spec faces A l)
-    /\ (exists vs, p_vertex_to_vertices m true A = Ok vs /\ Permutation vs (nbrs (m_edges m) A)).
+    exists l, p_vertex_to_corners m true A = Ok (Some l) /\ ring_spec faces A l
+              /\ p_vertex_to_vertices m true A = Ok (sp_vertex_ring faces l).
 Proof. exact vertex_ring_sorted. Qed.
-Print Assumptions C01_vertex_ring_sorted_partial.
+Print Assumptions C01_vertex_ring_sorted.
 
 (* 5. Sorting off: the corners at the vertex / the neighbours of the vertex (the model lists them in corner / edge order;
       the implementation's set order is compared as a set by the correspondence). *)
@@ -77,8 +77,19 @@ Theorem C01_border_partition :
 Proof. exact border_partition. Qed.
 Print Assumptions C01_border_partition.
 
+(* 8. Derived list answers: corner -> face; faces / edges around a vertex follow the corner / vertex ring element by
+      element; corners, faces and edges around a face side by side (corner i of face F is first_corner + i and holds
+      F[i]; the faces across the sides in the order of the sides, border sides skipped). *)
+Theorem C01_derived_lists :
+  forall nv faces m sortflag T,
+    wf_faces nv faces -> mesh_of nv faces m -> compute_connectivity m sortflag = Ok T ->
+    derived_lists_stmt faces m sortflag.
+Proof. exact derived_lists. Qed.
+Print Assumptions C01_derived_lists.
+
 (* 7. The mesh mouette builds from a face list (edges and corners completed from the faces) is such a mesh. *)
 Theorem C01_build_mesh_of :
-  forall nv faces, wf_faces nv faces -> mesh_of nv faces (build_mesh nv faces).
-Proof. exact MV.C01.ProofsEdges.build_mesh_of. Qed.
+  forall nv faces, wf_faces nv faces ->
+    mesh_of nv faces (build_mesh nv faces) /\ edges_exact faces (m_edges (build_mesh nv faces)).
+Proof. exact build_mesh_ok. Qed.
 Print Assumptions C01_build_mesh_of.
